@@ -132,6 +132,12 @@ def programs(tier):
             if bn == "n in l" and "0" in sn:
                 continue
             add("rsz/%s/%s" % (sn, bn), _mk_randsz(lambda s, sb=sb, bb=bb: (sb(s), bb(s))), bp, fixed=None, size_ok=sp)
+            if bn in ("sum==3", "sum<=n", "product==2", "unique", "it<c"):
+                # the list statement stated BEFORE the size constraint
+                add("rszrev/%s/%s" % (sn, bn), _mk_randsz(lambda s, sb=sb, bb=bb: (bb(s), sb(s))), bp, fixed=None, size_ok=sp)
+                # the user filled the list (beyond the largest admitted size) before the first call
+                add("rszpre/%s/%s" % (sn, bn), _mk_randsz(lambda s, sb=sb, bb=bb: (sb(s), bb(s)), prefill=[1, 2, 3, 0, 1]), bp,
+                    fixed=None, size_ok=sp)
     return P
 
 
@@ -237,13 +243,15 @@ def _mk_obj(sz, bld):
     return mk
 
 
-def _mk_randsz(bld):
+def _mk_randsz(bld, prefill=None):
     def mk():
         @vsc.randobj
         class C(object):
             def __init__(self):
                 self.l = vsc.randsz_list_t(vsc.bit_t(2))
                 self.n = vsc.rand_bit_t(3)
+                if prefill:
+                    self.l.extend(prefill)
 
             @vsc.constraint
             def cl(self):
@@ -420,6 +428,34 @@ def run_case(case):
                                 [type(ex).__name__], "readable", keep, hist)
                     elif out[0] != "solvefail":
                         bad("exception", "call after edits %r raised %r" % (hist, out), list(out), "returns or SolveFailure", keep, hist)
+    # ---- object lists: clear / append after a call act on the exposed list
+    if kind == "obj" and not viol:
+        outs, o = run(Script([]))
+        if outs[-1][0][0] == "ok":
+            E = type(o.l[0]) if len(o.l) else None
+            if E is not None:
+                cnt["edit_histories"] += 2
+                old = [e for e in o.l]
+                fresh = E()
+                o.l.append(fresh)
+                now = [e for e in o.l]
+                if len(o.l) != len(old) + 1 or now[-1] is not fresh or o.l[len(old)] is not fresh:
+                    bad("edit_not_on_exposed_list", "append(obj) on an object list: len %d -> %d, last element is %sthe appended object" % (
+                        len(old), len(o.l), "" if now and now[-1] is fresh else "NOT "), len(o.l), len(old) + 1, [], ["append"])
+                o.l.clear()
+                f2 = E()
+                o.l.append(f2)
+                now = [e for e in o.l]
+                if len(o.l) != 1 or not now or now[0] is not f2 or o.l[0] is not f2:
+                    bad("edit_not_on_exposed_list", "clear() then append(obj) on an object list: len()=%d, iteration yields %d element(s), "
+                        "l[0] is %sthe appended object" % (len(o.l), len(now), "" if (now and o.l[0] is f2) else "NOT "),
+                        [len(o.l), len(now)], [1, 1], [], ["clear", "append"])
+                out = common.outcome(o.randomize)
+                cnt["executions"] += 1
+                if out[0] == "ok":
+                    if int(o.l[0].x) != int(f2.x) or not (int(f2.x) < 3):
+                        bad("list_constraint_violated", "after clear()+append(obj)+randomize the element read through the list (x=%d) is not the "
+                            "object the solver worked on (x=%d)" % (int(o.l[0].x), int(f2.x)), int(o.l[0].x), int(f2.x), [], ["clear", "append", "randomize"])
     return {"cnt": cnt, "viol": viol}
 
 
@@ -449,6 +485,10 @@ def classify(v):
         return "C04-in-randsz-list"
     if name.startswith("rsz/size<=3;l[0]==size/") and name.split("/")[-1] in ("sum==3", "product==2", "sum<=n"):
         return "C04-sum-size-same-randset"
+    if name.split("/")[0] in ("rszrev", "rszpre") and name.split("/")[-1] in ("sum==3", "product==2", "sum<=n"):
+        # same defect: the sum/product is expanded before the size is solved (statement order / rand-set order)
+        if name.split("/")[0] == "rszrev" or name.split("/")[1] == "size<=3;l[0]==size":
+            return "C04-sum-size-same-randset"
     return None
 
 
